@@ -430,6 +430,25 @@ class ExprMixin:
         a, b = lift(a), lift(b)
         num = (VInt, VReal, VBool)
         if isinstance(op, (ast.Is, ast.IsNot)):
+            # type(v) is C: an exact-type test.  Decided for values whose Python type the engine knows, an unconstrained predicate of v
+            # (implying isinstance) for opaque values - both outcomes stay feasible
+            ty, cls = None, None
+            for x, y in ((a, b), (b, a)):
+                if isinstance(x, VTuple) and len(x.items) == 2 and isinstance(x.items[0], str) and x.items[0] == 'typeof' and isinstance(y, VFunc) \
+                        and isinstance(y.key, tuple) and y.key[0] in ('builtin', 'class'):
+                    ty, cls = x.items[1], y.key[1]
+            if ty is not None:
+                known = {VInt: 'int', VReal: 'float', VBool: 'bool', VStr: 'str', VList: 'list', VTuple: 'tuple', VNoneT: 'NoneType'}.get(type(ty))
+                if known is not None:
+                    r = VBool(known == cls)
+                elif isinstance(ty, VOpaque):
+                    r = ty.pred('typeis:' + cls)
+                    st.assume(z3.Implies(r.t, ty.pred('isinst:' + cls).t))
+                elif isinstance(ty, VObj):
+                    r = VBool(ty.cls == cls)
+                else:
+                    r = VBool(z3.Const(fresh_name('typeis'), z3.BoolSort()))
+                return [(st, ~r if isinstance(op, ast.IsNot) else r)]
             r = same(a, b)
             return [(st, ~r if isinstance(op, ast.IsNot) else r)]
         if isinstance(op, (ast.In, ast.NotIn)):
